@@ -9,7 +9,7 @@ from .facts import VERIF
 # files a property's mechanism continues into beyond its listed anchors
 EXTRA_FILES = {
     'C08': ['dbus/dbus-server-socket.c', 'dbus/dbus-server.c', 'dbus/dbus-server-unix.c',
-            'dbus/dbus-server-debug-pipe.c', 'bus/config-parser.c'],
+            'dbus/dbus-server-debug-pipe.c', 'bus/config-parser.c', 'dbus/dbus-sysdeps-unix.c'],
     'C06': ['bus/config-parser-common.c'],
     'C11': ['dbus/dbus-connection.c'],
     'C19': ['bus/activation-helper-bin.c'],
@@ -566,6 +566,83 @@ def allocation_results(ck, prog):
         r.note('%d stored allocation results examined' % n)
 
 
+# ---------------------------------------------------------------------------
+# "unset" sentinels survive widening
+
+_UNSIGNED = {'unsigned char', 'unsigned short', 'unsigned int', 'unsigned', 'unsigned long', 'unsigned long long',
+             'dbus_uint16_t', 'dbus_uint32_t', 'dbus_uint64_t', 'size_t', 'dbus_uid_t', 'dbus_gid_t', 'dbus_pid_t',
+             'uid_t', 'gid_t', 'uintptr_t'}
+
+
+def _unsigned(t):
+    return bool(t) and t.replace('const ', '').replace('volatile ', '').strip() in _UNSIGNED
+
+
+def widened_sentinels(ck, prog):
+    from .cfg import estr, is_ref, same_expr, written_lvalues
+    pid = ck.pid
+    files = anchor_files(pid)
+    r = ck.rule(pid + '.S', '"unset" sentinels survive widening in this property\'s files: where a variable that is '
+                'compared with (or initialised to) an all-ones "unset" constant receives a value of a narrower '
+                'unsigned type, the narrower value is first compared with its own all-ones constant', 'TS',
+                breaks='the narrower "unset" (e.g. the (uid_t) -1 the kernel reports for a socket without peer '
+                       'credentials) is zero-extended into an ordinary-looking value that no longer equals the wide '
+                       'sentinel and is taken for a real identity / size', floor=0)
+    n = 0
+    for f in prog.funcs.values():
+        if f.file not in files or not prog.is_production(f):
+            continue
+        tops = []
+        assigns = []
+        for b, i, ev in f.events():
+            tops.append(ev.get('init') if ev['ev'] == 'decl' else ev.get('e'))
+            for lhs, how, rhs in written_lvalues(ev):
+                if how in ('=', 'decl') and rhs is not None and (is_ref(lhs) or (isinstance(lhs, dict) and 'id' in lhs)):
+                    assigns.append((lhs, rhs, ev['line']))
+        for blk in f.blocks.values():
+            t = blk.get('term')
+            if t and t.get('cond') is not None:
+                tops.append(t['cond'])
+        # variables with an all-ones sentinel
+        sent = {}
+        for lhs, rhs, line in assigns:
+            if is_int(rhs, -1) and rhs.get('name') and _unsigned(lhs.get('t')) and _width(lhs.get('t')):
+                sent[lhs.get('id')] = rhs['name']
+        cmps = []
+        for top in tops:
+            if isinstance(top, dict):
+                for x in walk(top):
+                    if x.get('k') == 'bin' and x.get('op') in ('==', '!='):
+                        cmps.append(x)
+                        for a, b2 in ((x['l'], x['r']), (x['r'], x['l'])):
+                            if is_ref(a) and is_int(b2, -1) and b2.get('name') and _unsigned(a.get('t')):
+                                sent[a.get('id')] = b2['name']
+        if not sent:
+            continue
+        for lhs, rhs, line in assigns:
+            if lhs.get('id') not in sent or is_int(rhs):
+                continue
+            wl, wr = _width(lhs.get('t')), _width(rhs.get('t'))
+            if not (wl and wr and wr < wl and _unsigned(rhs.get('t'))):
+                continue
+            n += 1
+            name = lhs.get('name')
+            key = '%s:%s<-%s' % (f.name, name, estr(rhs))
+            ones = {-1, (1 << wr) - 1}
+            guarded = any((same_expr(c['l'], rhs) and is_int(c['r']) and c['r']['v'] in ones) or
+                          (same_expr(c['r'], rhs) and is_int(c['l']) and c['l']['v'] in ones) for c in cmps)
+            if guarded:
+                r.ok(key)
+            else:
+                r.violation(key, f.name, f.file, line,
+                            '%s (%s, compared with %s) receives %s of the narrower unsigned type %s without that value '
+                            'being compared with its own all-ones constant: a %d-bit "unset" becomes the ordinary '
+                            'value %d' % (name, lhs.get('t'), sent[lhs.get('id')], estr(rhs), rhs.get('t'), wr,
+                                          (1 << wr) - 1))
+    if n == 0:
+        r.skip('no widening store into a sentinel-carrying variable in %s' % ', '.join(sorted(files)))
+
+
 def run(ck, prog):
     error_discipline(ck, prog)
     onebit_stores(ck, prog)
@@ -573,3 +650,4 @@ def run(ck, prog):
     constant_arguments(ck, prog)
     field_widths(ck, prog)
     allocation_results(ck, prog)
+    widened_sentinels(ck, prog)
